@@ -1,8 +1,10 @@
 """C07 — placement calls return or throw; never crash or invoke undefined behaviour (structural clauses).
 
 M1   no product evaluated in 32-bit int and widened to 64 bits afterwards (producer contradicts consumer)
-M2   no 64-bit cost / area returned by a library function narrowed to int (two listed exceptions)
+M2   no 64-bit cost / area / demand narrowed to int implicitly: results of library functions (two listed exceptions) and
+     any other long long expression (listed exceptions; a remainder modulo an int is accepted)
 M3   inventory of 32-bit products of two non-constant operands: each is listed with a bound argument
+M4   std::accumulate-style folds use an initial value at least as wide as the elements they add up
 E1   'last element' indices: size()-1 evaluated unsigned without a non-emptiness guard; a function that can
      return size()-1 == -1 for an empty container must not feed a subscript
 E2   loops with a computed step: the step is provably non-zero (or listed with the reason)
@@ -46,12 +48,16 @@ U64 = ("unsigned long", "unsigned long long", "size_t", "std::size_t", "std::vec
 def run(ctx, rep, tier):
     cfgd = json.load(open(os.path.join(VERIF, "rules", "c07.json")))
     rep.rule("M1", "no int*int product widened to 64 bits after the multiplication (expected count 0)", 0)
-    rep.rule("M2", "no 64-bit library cost/area narrowed to int (two listed exceptions)", 2)
+    rep.rule("M2", "no 64-bit cost/area/demand implicitly narrowed to int (listed exceptions)", 4)
     rep.rule("M3", "every 32-bit product of two non-constant operands is listed with a bound argument", 5)
+    rep.rule("M4", "fold accumulators are as wide as the elements", 3)
     rep.rule("E1", "size()-1 style last-element indices are guarded against the empty container", 1)
     rep.rule("E2", "computed loop steps are provably non-zero or listed", 5)
     rep.rule("CTRL", "positive controls (selftest/c07_controls.cpp)", 4)
     scan(ctx, ctx.prog, rep, cfgd, control=False)
+    from .common import check_accumulators
+    if check_accumulators(ctx, rep, "M4", list(ctx.prog.all_funcs(with_lambdas=False))) == 0:
+        rep.unknown("M4", None, None, "accumulate calls", "none found")
     # positive controls
     ctl = Program.from_files([os.path.join(VERIF, "selftest", "c07_controls.cpp")])
 
@@ -79,13 +85,28 @@ def run(ctx, rep, tier):
         def guards(self, *a, **k):
             return ctx.__class__.guards(self, *a, **k)
     sink = Sink()
-    scan(CCtx(), ctl, sink, {"products_32bit": {}, "narrowing_exceptions": {}, "loop_steps": {}}, control=True)
+    scan(CCtx(), ctl, sink, {"products_32bit": {}, "narrowing_exceptions": {}, "narrowings_64_to_32": {}, "loop_steps": {}}, control=True)
     for rid, n in (("M1", 1), ("M2", 1), ("E1", 2), ("E2", 1)):
         got = sum(1 for r, _w in sink.v if r == rid)
         if got >= n:
             rep.holds("CTRL", "selftest/c07_controls.cpp", None, "rule %s reports its %d seeded control(s)" % (rid, n), "%d reported" % got)
         else:
             rep.unknown("CTRL", "selftest/c07_controls.cpp", None, "rule %s positive control" % rid, "expected >= %d reports, got %d" % (n, got))
+
+
+def shape(f, c):
+    """Canonical form with local variables and parameters replaced by their type: inventory keys survive renames."""
+    if not isinstance(c, tuple):
+        return c
+    if c and c[0] == "var":
+        d = f.unit.by_id.get(c[1]) if f is not None else None
+        t = (des(d) if d is not None else "?") or "?"
+        return ("var", "0", "<%s>" % t)
+    return tuple(shape(f, x) if isinstance(x, tuple) else x for x in c)
+
+
+def skey(f, c):
+    return "%s|%s" % (f.short, pretty(shape(f.outer if hasattr(f, "outer") else f, c)))
 
 
 def scan(ctx, prog, rep, cfgd, control):
@@ -97,7 +118,7 @@ def scan(ctx, prog, rep, cfgd, control):
             k = x.get("kind")
             if k == "ImplicitCastExpr" and x.get("castKind") == "IntegralCast":
                 src = children(x)[0]
-                ts, td = des(src), des(x)
+                ts, td = des(src).replace("const ", ""), des(x).replace("const ", "")
                 key = (loc_str(x), pretty(canon(src))[:80])
                 if key in seen:
                     continue
@@ -120,13 +141,28 @@ def scan(ctx, prog, rep, cfgd, control):
                         if d is not None and (d.get("_q", "").startswith(CQ) or control):
                             seen.add(key)
                             n_narrow += 1
-                            ek = "%s|%s" % (f.short, pretty(canon(s)))
+                            ek = skey(f, canon(s))
                             if ek in cfgd["narrowing_exceptions"]:
                                 rep.holds("M2", x, f, "listed narrowing of %s" % pretty(canon(s)), cfgd["narrowing_exceptions"][ek])
                             else:
                                 rep.violation("M2", x, f, "%s result of %s narrowed to int" % (ts, pretty(canon(s))[:70]),
                                               "costs and areas are computed in 64 bits because they exceed 2^31 at the supported magnitudes",
                                               key="%s|narrowed %s" % (f.short, short(ci["qname"])))
+                    elif ts in ("long long", "const long long") and canon(s)[0] != "lit" and \
+                            (x.get("_p") or {}).get("kind") not in ("CXXStaticCastExpr", "CStyleCastExpr", "CXXFunctionalCastExpr"):
+                        # any other implicit 64 -> 32 bit narrowing of a signed quantity
+                        seen.add(key)
+                        n_narrow += 1
+                        ek = skey(f, canon(s))
+                        sc = strip(s)
+                        if sc.get("kind") == "BinaryOperator" and sc.get("opcode") == "%" and des(strip(children(sc)[1])).replace("const ", "") == "int":
+                            rep.holds("M2", x, f, "narrowing of %s" % pretty(canon(s))[:60], "a remainder modulo an int fits an int")
+                        elif ek in cfgd.get("narrowings_64_to_32", {}):
+                            rep.holds("M2", x, f, "listed narrowing of %s" % pretty(canon(s))[:60], cfgd["narrowings_64_to_32"][ek])
+                        else:
+                            rep.violation("M2", x, f, "%s value %s implicitly narrowed to int" % (ts, pretty(canon(s))[:70]),
+                                          "the value is held in 64 bits because it can exceed 2^31 at the supported magnitudes (demands, capacities, "
+                                          "costs, areas); the narrowed copy wraps", key="%s|implicit narrowing of %s" % (f.short, pretty(shape(f, canon(s)))[:60]))
             # M3
             if k == "BinaryOperator" and x.get("opcode") == "*" and des(x) == "int":
                 a, b = [canon(c) for c in children(x)]
@@ -139,7 +175,7 @@ def scan(ctx, prog, rep, cfgd, control):
                 n_prod += 1
                 if control:
                     continue
-                pk = "%s|%s" % (f.short, pretty(canon(x)))
+                pk = skey(f, canon(x))
                 if pk in cfgd["products_32bit"]:
                     used_products.add(pk)
                     rep.holds("M3", x, f, "product %s" % pretty(canon(x)), cfgd["products_32bit"][pk])
@@ -398,7 +434,7 @@ def check_e2(ctx, prog, rep, cfgd, control):
             env = env_at(ctx, owner, ch[3]) or {}
             env = {v: iv for v, iv in env.items() if not var_write_nodes(ctx, owner, [v])}
             lo, hi = eval_step(step, env)
-            key = "%s|%s" % (owner.short, pretty(step))
+            key = skey(owner, step)
             what = "loop step %s" % pretty(step)
             entry = cfgd["loop_steps"].get(key)
             if lo > 0 or hi < 0:
